@@ -72,6 +72,9 @@ def main(path):
         env = None
         if case.get('fault'):
             env = {'LD_PRELOAD': common.SHIM, 'RQ_FAIL_AT': str(case['fault']['k']), 'RQ_FAIL_ERRNO': str(case['fault']['errno']), 'RQ_LOG': os.path.join(d, 'fslog')}
+            if case.get('readdir_fault_at'):   # the k-th reading of a directory entry fails instead of the k-th mutating call
+                del env['RQ_FAIL_AT']
+                env['RQ_FAIL_READDIR'] = str(case['readdir_fault_at'])
         o = ws.run_rq(root, case['args'], threads=case.get('threads', 1), sched=case.get('schedule'), trace=os.path.join(d, 'trace'), preload_env=env)
         print('--- workspace: %s\n--- series: %s\n--- args: %s threads=%s schedule=%s' % (case.get('series_desc'), case['series'], case['args'], case.get('threads', 1), case.get('schedule')))
         print('--- expected:', json.dumps(case.get('expected')))
